@@ -551,6 +551,8 @@ def run(ctx):
 
     # correspondence with the Lean bookkeeping model (driver command), see props/corr_models.py
     check.pmap(ctx, 'props.corr_models', 'one_infer', list(range(16 if q else 120)), case_timeout=300)
+    # state-space sharing on/off (PGModel/Share.lean, driver command `share`): which configuration's rate matrix every read returns
+    check.pmap(ctx, 'props.corr_models', 'one_share', list(range(1000, 1016 if q else 1120)), case_timeout=600)
 
 
 def replay(ctx, payload):
